@@ -808,6 +808,11 @@ def serde_decls(tier='quick'):
         out.append(mk('sd_%s_san3_val' % t, fam, t, sanitizers=[Sanitizer('with', s3)], validators=[vals[-1]], aux=[n2, n6], derives=sd))
         if fl:
             out.append(mk('sd_%s_bounds_nofinite' % t, fam, t, validators=[Validator('greater_or_equal', bl)], aux=[n1], derives=sd))
+            # the serde impls next to the OTHER derivable traits (a generator may key on them): Eq/Ord need `finite`
+            out.append(mk('sd_%s_fin_eq' % t, fam, t, validators=[Validator('finite')], derives=sd + ['PartialEq', 'Eq', 'PartialOrd', 'Ord']))
+            out.append(mk('sd_%s_fin_bounds_eq' % t, fam, t, validators=vals, aux=[n1, n2], derives=sd + ['Clone', 'Copy', 'PartialEq', 'Eq']))
+        else:
+            out.append(mk('sd_%s_val_eq_hash' % t, fam, t, validators=vals, aux=[n1, n2], derives=sd + ['Clone', 'Copy', 'PartialEq', 'Eq', 'PartialOrd', 'Ord', 'Hash']))
     out += generic_decls('sd', sd)
     # 128-bit integers: their Deserialize harness is restricted to protocol-following documents
     # (the protocol-violating modes time out in CBMC for 128-bit visitors)
@@ -1124,12 +1129,25 @@ def run_kani(crate, harness_names=None, jobs=14, extra_flags=(), timeout=3000):
 
 def kani_counterexample(crate, harness, timeout=600):
     """the verifier's own counterexample: Kani's concrete playback for one failing harness (the concrete
-    values of every kani::any() in call order, as Kani prints them)"""
+    values of every kani::any() in call order, as Kani prints them) together with the generated unit
+    test, so that it can be run natively against the real code (kani_native_playback)"""
     env = dict(pipeline.ENV)
     env['CARGO_TARGET_DIR'] = os.path.join(pipeline.TARGET, 'kani')
     cmd = ['cargo', 'kani', '--harness', harness, '-Z', 'concrete-playback', '--concrete-playback=print', '--output-format', 'terse'] + KANI_FLAGS
     rc, out, err, _ = pipeline.sh(cmd, cwd=crate, env=env, timeout=timeout)
-    m = re.search(r'let concrete_vals: Vec<Vec<u8>> = vec!\[(.*?)\];', out, re.S)
+    # one unit test per failing check and per satisfied cover; take the first that belongs to a failing check
+    tests = re.findall(r'```\n(.*?)```', out, re.S)
+    pick = None
+    for t in tests:
+        if 'concrete_playback_run' not in t:
+            continue
+        if re.search(r'Check for `cover`', t):
+            continue
+        pick = t
+        break
+    if pick is None:
+        return None
+    m = re.search(r'let concrete_vals: Vec<Vec<u8>> = vec!\[(.*?)\];', pick, re.S)
     if not m:
         return None
     vals = []
@@ -1139,7 +1157,71 @@ def kani_counterexample(crate, harness, timeout=600):
             vals.append({'value': line[2:].strip()})
         elif line.startswith('vec![') and vals and 'bytes' not in vals[-1]:
             vals[-1]['bytes'] = line.rstrip(',')
-    return vals[:40]
+    mname = re.search(r'fn (kani_concrete_playback_\w+)\(\)', pick)
+    mchk = re.search(r'/// Check for `(\w+)`: "(.*?)"\s*$', pick, re.M)
+    return {'values': vals[:40], 'test_name': mname.group(1) if mname else None, 'test_code': pick,
+            'failing_check': (mchk.group(1) + ': ' + mchk.group(2)) if mchk else None}
+
+
+def kani_native_playback(crate, harness, cex, dest, timeout=1200):
+    """Replay of the verifier's counterexample against the real code: the harness crate (which invokes the
+    real macro of the tree under check) is copied, Kani's generated unit test is inserted next to the
+    harness, and `cargo kani playback` compiles it NATIVELY and runs the harness with the concrete values.
+    Stubs are not applied in a native run (the real functions are called), contracts are not instrumented.
+    Returns {'reproduced': bool|None, ...}; None = the playback could not be built or run."""
+    if not cex or not cex.get('test_name') or not cex.get('test_code'):
+        return None
+    src = os.path.join(crate, 'src', 'lib.rs')
+    lines = open(src).read().split('\n')
+    idx = next((i for i, l in enumerate(lines) if re.match(r'\s*(pub )?fn %s\s*\(' % re.escape(harness), l)), None)
+    if idx is None:
+        return None
+    j = idx
+    while j > 0 and lines[j - 1].strip().startswith('#['):
+        j -= 1
+    attrs = ' '.join(l.strip() for l in lines[j:idx])
+    should_panic = 'kani::should_panic' in attrs
+    stubs = re.findall(r'kani::stub(?:_verified)?\(([^)]*)\)', attrs)
+    indent = re.match(r'\s*', lines[idx]).group(0)
+    test = '\n'.join(indent + l for l in cex['test_code'].strip('\n').split('\n'))
+    lines[j:j] = [indent + '// --- inserted: Kani concrete playback of the failing check (verifier counterexample) ---', test]
+    shutil.rmtree(dest, ignore_errors=True)
+    os.makedirs(os.path.join(dest, 'src'))
+    for fn in ('Cargo.toml', 'Cargo.lock'):
+        shutil.copy(os.path.join(crate, fn), os.path.join(dest, fn))
+    t = open(os.path.join(dest, 'Cargo.toml')).read()
+    import hashlib
+    uniq = hashlib.sha1(os.path.abspath(dest).encode()).hexdigest()[:10]   # never share target dir + package name between crates
+    t = re.sub(r'name = "nutype_verif_kani_(\w+)"', r'name = "nutype_verif_pb_\1_%s"' % uniq, t)
+    t = t.replace('[dependencies]', '[lib]\ndoctest = false\n\n[dependencies]', 1)
+    open(os.path.join(dest, 'Cargo.toml'), 'w').write(t)
+    with open(os.path.join(dest, 'src', 'lib.rs'), 'w') as f:
+        f.write('\n'.join(lines))
+    return run_native_playback(dest, cex['test_name'], should_panic, stubs, timeout)
+
+
+def run_native_playback(dest, test_name, should_panic=False, stubs=(), timeout=1200):
+    env = dict(pipeline.ENV)
+    env['CARGO_TARGET_DIR'] = os.path.join(pipeline.TARGET, 'kani_playback')
+    env['RUST_BACKTRACE'] = '0'
+    cmd = ['cargo', 'kani', 'playback', '-Z', 'concrete-playback', '--', test_name, '--exact', '--nocapture'] if False else \
+          ['cargo', 'kani', 'playback', '-Z', 'concrete-playback', '--', test_name]
+    rc, out, err, wall = pipeline.sh(cmd, cwd=dest, env=env, timeout=timeout)
+    text = out + '\n' + err
+    m = re.search(r'test result: (\w+)\. (\d+) passed; (\d+) failed', text)
+    res = {'cmd': 'cd %s && %s' % (dest, ' '.join(cmd)), 'dir': dest, 'test_name': test_name, 'should_panic_harness': should_panic,
+           'stubs_not_applied_natively': list(stubs), 'wall_s': round(wall, 1)}
+    if not m or (int(m.group(2)) + int(m.group(3))) == 0:
+        res.update(reproduced=None, note='native playback did not build or ran no test', tail=text[-1500:])
+        return res
+    failed = int(m.group(3)) > 0
+    pm = re.search(r"panicked at ([^\n]*)\n([^\n]*)", text)
+    res['native_panic'] = (pm.group(1) + ' ' + pm.group(2)).strip()[:400] if pm else None
+    res['reproduced'] = (not failed) if should_panic else failed
+    res['note'] = ('the harness must panic; run natively on the real code with the counterexample it ran to completion' if should_panic and not failed
+                   else 'the harness assertion fails natively on the real code with the verifier\'s values' if failed and not should_panic
+                   else 'not reproduced natively (stubs / contract instrumentation are not applied in a native run, or the failing check is a Kani-only check)')
+    return res
 
 
 def parse_kani(output):
@@ -1464,7 +1546,9 @@ def harnesses_for(prop, tier, seed):
                     hs.append(h_deserialize_in_place(d, [prop]))
             else:
                 hs.append(h_serialize(d, [prop]))
-                if not d.sanitizers:
+                # C04 requires Deserialize to apply the sanitizers again, so the round trip can only hold where
+                # they are idempotent: sanitizer-free declarations and the idempotent custom `san` (not `san3`)
+                if not any(sa.fn is not None and sa.fn.name.startswith('san3') for sa in d.sanitizers):
                     hs.append(h_roundtrip(d, [prop]))
                 if d.inner in ('i128', 'u128') and not d.has_validation:
                     hs.append(h_roundtrip_concrete(d, [prop], '(1 as %s) << 70' % d.inner, '2^70'))
@@ -1827,6 +1911,15 @@ def arbitrary_string_decls(tier='quick'):
         for vname, vals in [('min3_lit', [Validator('len_char_min', L_(3))]), ('min2_max4_lit', [Validator('len_char_min', L_(2)), Validator('len_char_max', L_(4))]),
                             ('ne_max3_lit', [ne, Validator('len_char_max', L_(3))]), ('min0_max2_lit', [Validator('len_char_min', L_(0)), Validator('len_char_max', L_(2))])]:
             out.append(mk('arbs_%s_%s' % (sname, vname), 'string', 'String', sanitizers=sans, validators=vals, derives=der))
+    # expression length bounds made of operators that bind weaker than `+` / `*`: the generator derives its
+    # default maximum (`min + 16`) and its size hint from the spliced expression (finding 13)
+    for sname, sans in [('nos', []), ('tr', [T])]:
+        out.append(mk('arbs_%s_min_expr_and' % sname, 'string', 'String', sanitizers=sans, derives=der, aux=['LEN_P16'],
+                      validators=[Validator('len_char_min', Bound('LEN_P16 & LEN_P16', '', '(LEN_P16 & LEN_P16)'))]))
+        out.append(mk('arbs_%s_min_expr_or' % sname, 'string', 'String', sanitizers=sans, derives=der, aux=['LEN_P32', 'LEN_P16'],
+                      validators=[Validator('len_char_min', Bound('LEN_P32 | LEN_P16', '', '(LEN_P32 | LEN_P16)'))]))
+        out.append(mk('arbs_%s_ne_min_expr_and_max' % sname, 'string', 'String', sanitizers=sans, derives=der, aux=['LEN_P16'],
+                      validators=[ne, Validator('len_char_min', Bound('LEN_P16 & 3', '', '(LEN_P16 & 3)')), Validator('len_char_max', Bound('LEN_P16 >> 2', '', '(LEN_P16 >> 2)'))]))
     for d in out:
         d.verus = False
         d.kani = True
